@@ -51,6 +51,7 @@ func RunC05(c *Ctx) {
 	}
 	idx = e.explicitRanges(idx, true)
 	idx = e.lateClockPairs(idx, cases, c.N(17, 5), true)
+	idx = e.coarseMtimePairs(idx, cases, c.N(11, 4), true)
 	// I/O errors: a failed operation must not publish a list naming missing tables
 	idx = e.staleCleanupFamilies(idx)
 	idx = e.faultFamilies(idx, true, "", 2)
@@ -169,6 +170,27 @@ func (e *engRunner) lateClockPairs(idx int, cases []pairCase, stride int, every 
 	}
 	return idx
 }
+
+// coarseMtimePairs re-runs every stride-th pair sweep on a "file system with coarse time
+// stamps": every FileInfo the code obtains reports the same modification time, as files
+// written within one timer tick (or one second, on file systems with that granularity) do.
+func (e *engRunner) coarseMtimePairs(idx int, cases []pairCase, stride int, every bool) int {
+	e.coarseMtime = coarseMtime
+	defer func() { e.coarseMtime = 0 }()
+	for i, pc := range cases {
+		if i%stride != 1%stride {
+			continue
+		}
+		if e.c.Mine(idx) {
+			e.sweepPair("coarse-mtime pair-sweep", idx, engCfg(pc.cfg), pc.rec, pc.a, pc.b, pc.c, pc.preOpen, every)
+		}
+		idx++
+	}
+	return idx
+}
+
+// coarseMtime: larger than any run, so that all files of a scenario carry equal stamps
+const coarseMtime = 20 * 365 * 24 * time.Hour
 
 // lateClock: 2020-01-01 (virtual base) + 80 years
 const lateClock = 80 * 365 * 24 * time.Hour
